@@ -92,6 +92,23 @@ def sibling_duplicate_case():
     return case
 
 
+def function_in_branch_and_main_case():
+    """One function called inside an If branch (on captured outer values) AND in the main graph: a valid model (checker, reference
+    evaluator, onnxruntime without graph optimisations) on which onnxruntime 1.30's ahead-of-time function inlining fails with 'the
+    graph is not acyclic' - see buildlib._ort_function_inliner_at_fault; kept as a fixed case so that the excuse is exercised every run."""
+    import numpy as np
+    import spox.opset.ai.onnx.v17 as op
+    from spox._function import to_function
+
+    f = to_function("Gate", "verif.c02")(lambda in0, in1: [op.mul(op.relu(in0), in1)])
+    a0 = B.argument(B.Tensor(np.float32, (2,)))
+    c = B.argument(B.Tensor(np.bool_, ()))
+    r = op.relu(a0)
+    (i,) = op.if_(c, then_branch=lambda: [a0], else_branch=lambda: list(f(r, r)))
+    (g,) = f(a0, r)
+    return B.Case({"a0": a0, "c": c}, {"o0": op.mul(i, a0), "o1": g, "o2": op.mul(g, r)}, False, {"names": "corner:function-in-branch-and-main"})
+
+
 def run(run: Run) -> int:
     run.check_theorems(PROPS, CONE, thorough_coqchk=(run.tier == "thorough"))
     n = 300 if run.tier == "quick" else 4000
@@ -105,6 +122,7 @@ def run(run: Run) -> int:
     for c in extra_corners:
         c.meta["names"] = "corner:functions"
         cases.append(c)
+    cases.append(function_in_branch_and_main_case())
     mixed = mixed_cases(run, n // 4)
     for c in mixed:
         B.run_impl(c)
@@ -165,11 +183,14 @@ def run(run: Run) -> int:
         "traces_validated_against_impl": len([c for c in cases if c.coq is not None]) - len(mism),
         "disagreements_checked": len(mism),
         "models_returned": n_models, "models_failing_direct_oracle": n_oracle_bad,
+        "onnxruntime_function_inliner_failures_excused": len(B.ORT_INLINER_EXCUSED),
         "input_distribution": {"operators": hist, "outcomes": dict(outcome_hist)},
         "samples": [B.describe(c) for c in cases[:2]],
     }
     return run.finish(cov, [
-        "A: onnx.checker.check_model(full_check=True) + strict shape inference + onnxruntime load decide validity (oracle)",
+        "A: onnx.checker.check_model(full_check=True) + strict shape inference + onnxruntime load decide validity (oracle); a load failure of "
+        "a model WITH local functions is attributed to onnxruntime's ahead-of-time function inlining (not to the model) only if the model loads "
+        "with graph optimisations disabled AND loads with default options after onnx.inliner expanded the functions (count in coverage)",
         "A: coq struct_check agrees with the structural part of the real checker (validated by outcome-class correspondence)",
         "reflector prints the object graph build() sees (validated: exact-name agreement of the emitted models)",
     ])
